@@ -47,7 +47,7 @@ Definition bname_eqb (a b : bname) : bool :=
   end.
 
 Inductive err := EServiceUnknown | ENameHasNoOwner | EAccessDenied | ELimitsExceeded | ESpawnInvalidArgs
-               | EChildExited | EChildSignaled | EExecFailed | ETimedOut.
+               | EChildExited | EChildSignaled | EExecFailed | ETimedOut | ENotSupported.
 
 (* what the babysitter reports about the started process *)
 Inductive child_result := Exited (status : N) | Signaled | ExecFailed.
@@ -61,7 +61,10 @@ Record cfg := mkCfg {
   services : list service;            (* BusActivation.entries at start-up: the .service files in the configured directories, in loading order *)
   max_pending : N;                    (* limits.max_pending_activations *)
   pol_activate : bname -> N -> bool;  (* bus_context_check_security_policy with no recipient: destination name, message class *)
-  pol_deliver : list N -> N -> bool   (* ... with the recipient: well-known names it owns, message class *)
+  pol_deliver : list N -> N -> bool;  (* ... with the recipient: well-known names it owns, message class *)
+  msg_reply : N -> bool;              (* the message is a method call without NO_REPLY_EXPECTED: the bus records a pending reply *)
+  msg_fd : N -> bool;                 (* the message carries a unix file descriptor *)
+  max_replies : N                     (* limits.max_replies_per_connection *)
 }.
 
 (* BusPendingActivationEntry *)
@@ -77,12 +80,16 @@ Record state := mkState {
   st_pend : list pending;        (* BusActivation.pending_activations, in order of creation *)
   st_next_sid : N;               (* number of processes started so far *)
   st_next_id : N;                (* ghost: number of ESend/EStart events so far *)
-  st_services : list service }.  (* BusActivation.entries: what activation_find_entry finds, i.e. the .service files
+  st_services : list service;    (* BusActivation.entries: what activation_find_entry finds, i.e. the .service files
                                     currently in the configured directories (the cache is refreshed on every lookup:
                                     check_service_file / update_service_cache, and rebuilt by bus_activation_reload) *)
+  st_fdok : list N;              (* connections that negotiated unix-fd passing (dbus_connection_can_send_type) *)
+  st_replies : list (N * N) }.   (* BusConnections.pending_replies: (caller, callee) of every method call passed on with a
+                                    reply expected and not yet answered (the harness's services never answer) *)
+
 
 (* bus_activation_new *)
-Definition start (cf : cfg) : state := mkState [] 0 [] [] 0 0 cf.(services).
+Definition start (cf : cfg) : state := mkState [] 0 [] [] 0 0 cf.(services) [] [].
 
 Inductive out :=
 | OSpawn (sid : N) (n : bname) (exec : N)               (* _dbus_spawn_async_with_babysitter *)
@@ -95,7 +102,7 @@ Inductive out :=
                                                            disconnected (bus_pending_activation_entry_free); not observable *)
 
 Inductive event :=
-| EConnect                                              (* a new connection completes Hello *)
+| EConnect (fd : bool)                                   (* a new connection completes Hello; fd: it negotiated unix-fd passing *)
 | ESend (c serial : N) (dest : bname) (noauto : bool) (cl : N)   (* c sends a message to a name *)
 | EStart (c serial : N) (n : bname)                     (* c calls StartServiceByName(n) *)
 | ERequest (c serial k : N)                             (* c calls RequestName(k, DO_NOT_QUEUE) *)
@@ -153,7 +160,7 @@ Definition remove_name (n : bname) (l : list pending) : list pending :=
   filter (fun p => negb (bname_eqb p.(p_name) n)) l.
 
 Definition set_pend (st : state) (l : list pending) : state :=
-  mkState st.(st_conns) st.(st_next_conn) st.(st_owners) l st.(st_next_sid) st.(st_next_id) st.(st_services).
+  mkState st.(st_conns) st.(st_next_conn) st.(st_owners) l st.(st_next_sid) st.(st_next_id) st.(st_services) st.(st_fdok) st.(st_replies).
 
 (* ---------------------------------------------------------------- the three fan-outs *)
 (* bus_activation_service_created: a success reply for every StartServiceByName caller still connected *)
@@ -161,13 +168,42 @@ Definition created_outs (st : state) (p : pending) : list out :=
   flat_map (fun e => if connected st e.(e_conn) && negb e.(e_auto)
                      then [OStarted e.(e_conn) e.(e_id) e.(e_serial) 1] else []) p.(p_entries).
 
-(* bus_activation_send_pending_auto_activation_messages: resume bus_dispatch_matches for every held message, in list order *)
-Definition replay_outs (cf : cfg) (st : state) (o : N) (p : pending) : list out :=
-  flat_map (fun e => if e.(e_auto) && connected st e.(e_conn)
-                     then (if cf.(pol_deliver) (names_of st.(st_owners) o) e.(e_class)
-                           then [OFwd o e.(e_id) e.(e_conn) e.(e_serial)]
-                           else [OErr e.(e_conn) e.(e_id) e.(e_serial) EAccessDenied])
-                     else if connected st e.(e_conn) then [] else [OGone e.(e_id)]) p.(p_entries).
+(* bus_dispatch_matches for the addressed recipient o, as far as it can refuse: bus_context_check_security_policy
+   (send / receive rules -> AccessDenied; then bus_connections_expect_reply: a method call that expects a reply takes one
+   of the caller's max_replies_per_connection slots -> LimitsExceeded when none is left), then the unix-fd capability of
+   the recipient (NotSupported; the reply slot recorded a moment earlier stays: finding F7 of C09).
+   [replies] = pending replies so far; returns the pending replies afterwards and what is sent *)
+Definition count_replies (c : N) (l : list (N * N)) : N := nlen (filter (fun p => fst p =? c) l).
+
+Definition deliver (cf : cfg) (names : list N) (fdok : bool) (replies : list (N * N))
+                   (o id from serial cl : N) : list (N * N) * out :=
+  if negb (cf.(pol_deliver) names cl) then (replies, OErr from id serial EAccessDenied) else
+  if cf.(msg_reply) cl && (cf.(max_replies) <=? count_replies from replies) then (replies, OErr from id serial ELimitsExceeded) else
+  let replies1 := if cf.(msg_reply) cl then (from, o) :: replies else replies in
+  if cf.(msg_fd) cl && negb fdok then (replies1, OErr from id serial ENotSupported)
+  else (replies1, OFwd o id from serial).
+
+(* bus_activation_send_pending_auto_activation_messages: resume bus_dispatch_matches for every held message, in list
+   order; a refusal is answered to the sender of that message and the loop carries on *)
+Fixpoint replay (cf : cfg) (st : state) (names : list N) (fdok : bool) (o : N) (replies : list (N * N)) (es : list entry)
+  : list (N * N) * list out :=
+  match es with
+  | [] => (replies, [])
+  | e :: r =>
+      if e.(e_auto) && connected st e.(e_conn) then
+        let '(replies1, x) := deliver cf names fdok replies o e.(e_id) e.(e_conn) e.(e_serial) e.(e_class) in
+        let '(replies2, xs) := replay cf st names fdok o replies1 r in (replies2, x :: xs)
+      else if connected st e.(e_conn) then replay cf st names fdok o replies r
+      else let '(replies2, xs) := replay cf st names fdok o replies r in (replies2, OGone e.(e_id) :: xs)
+  end.
+
+Definition fd_capable (st : state) (c : N) : bool := existsb (N.eqb c) st.(st_fdok).
+
+Definition replay_outs (cf : cfg) (st : state) (o : N) (p : pending) : list (N * N) * list out :=
+  replay cf st (names_of st.(st_owners) o) (fd_capable st o) o st.(st_replies) p.(p_entries).
+
+Definition set_replies (st : state) (l : list (N * N)) : state :=
+  mkState st.(st_conns) st.(st_next_conn) st.(st_owners) st.(st_pend) st.(st_next_sid) st.(st_next_id) st.(st_services) st.(st_fdok) l.
 
 (* try_send_activation_failure *)
 Definition fail_outs (st : state) (er : err) (p : pending) : list out :=
@@ -188,7 +224,7 @@ Definition activate (cf : cfg) (st : state) (c id serial : N) (n : bname) (auto 
       if sv.(sv_parse_ok) then
         let sid := st.(st_next_sid) in
         (mkState st.(st_conns) st.(st_next_conn) st.(st_owners)
-                 (st.(st_pend) ++ [mkPending n sv.(sv_exec) sid [e]]) (sid + 1) st.(st_next_id) st.(st_services),
+                 (st.(st_pend) ++ [mkPending n sv.(sv_exec) sid [e]]) (sid + 1) st.(st_next_id) st.(st_services) st.(st_fdok) st.(st_replies),
          [OSpawn sid n sv.(sv_exec)])
       else (st, [OErr c id serial ESpawnInvalidArgs])                     (* cancel_pending_activation *)
     end
@@ -197,7 +233,8 @@ Definition activate (cf : cfg) (st : state) (c id serial : N) (n : bname) (auto 
 (* bus_dispatch for a message with a destination other than the bus driver *)
 Definition send (cf : cfg) (st : state) (c id serial : N) (dest : bname) (noauto : bool) (cl : N) : state * list out :=
   match owner_of st dest with
-  | Some o => (st, if cf.(pol_deliver) (names_of st.(st_owners) o) cl then [OFwd o id c serial] else [OErr c id serial EAccessDenied])
+  | Some o => let '(replies, x) := deliver cf (names_of st.(st_owners) o) (fd_capable st o) st.(st_replies) o id c serial cl in
+              (set_replies st replies, [x])
   | None => if noauto then (st, [OErr c id serial ENameHasNoOwner])
             else activate cf st c id serial dest true cl
   end.
@@ -206,7 +243,8 @@ Definition send (cf : cfg) (st : state) (c id serial : N) (dest : bname) (noauto
 Definition resolve (cf : cfg) (st : state) (n : bname) (o : N) : state * list out :=
   match find_pending n st.(st_pend) with
   | None => (st, [])
-  | Some p => (set_pend st (remove_name n st.(st_pend)), replay_outs cf st o p)
+  | Some p => let '(replies, outs) := replay_outs cf st o p in
+              (set_replies (set_pend st (remove_name n st.(st_pend))) replies, outs)
   end.
 
 Definition created (st : state) (n : bname) : list out :=
@@ -224,13 +262,14 @@ Definition child_error (r : child_result) : option err :=
   end.
 
 Definition bump_id (st : state) : state :=
-  mkState st.(st_conns) st.(st_next_conn) st.(st_owners) st.(st_pend) st.(st_next_sid) (st.(st_next_id) + 1) st.(st_services).
+  mkState st.(st_conns) st.(st_next_conn) st.(st_owners) st.(st_pend) st.(st_next_sid) (st.(st_next_id) + 1) st.(st_services) st.(st_fdok) st.(st_replies).
 
 Definition step (cf : cfg) (st : state) (e : event) : state * list out :=
   match e with
-  | EConnect =>
+  | EConnect fd =>
       let c := st.(st_next_conn) in
-      let st1 := mkState (st.(st_conns) ++ [c]) (c + 1) st.(st_owners) st.(st_pend) st.(st_next_sid) st.(st_next_id) st.(st_services) in
+      let st1 := mkState (st.(st_conns) ++ [c]) (c + 1) st.(st_owners) st.(st_pend) st.(st_next_sid) st.(st_next_id) st.(st_services)
+                         (if fd then c :: st.(st_fdok) else st.(st_fdok)) st.(st_replies) in
       (* bus_driver_handle_hello: bus_registry_ensure -> bus_activation_service_created for the unique name;
          bus_registry_acquire_service is not involved, so nothing is replayed and nothing is removed *)
       (st1, created st1 (Uq c))
@@ -248,7 +287,7 @@ Definition step (cf : cfg) (st : state) (e : event) : state * list out :=
             (st1, outs ++ [ODrv c serial (if o =? c then 4 else 3)])         (* ALREADY_OWNER / EXISTS *)
         | None =>
             let cr := created st (Wk k) in                                    (* bus_registry_ensure *)
-            let st1 := mkState st.(st_conns) st.(st_next_conn) ((k, c) :: st.(st_owners)) st.(st_pend) st.(st_next_sid) st.(st_next_id) st.(st_services) in
+            let st1 := mkState st.(st_conns) st.(st_next_conn) ((k, c) :: st.(st_owners)) st.(st_pend) st.(st_next_sid) st.(st_next_id) st.(st_services) st.(st_fdok) st.(st_replies) in
             let '(st2, outs) := resolve cf st1 (Wk k) c in
             (st2, cr ++ outs ++ [ODrv c serial 1])                            (* PRIMARY_OWNER *)
         end
@@ -258,7 +297,7 @@ Definition step (cf : cfg) (st : state) (e : event) : state * list out :=
         match assoc k st.(st_owners) with
         | Some o =>
             if o =? c then
-              (mkState st.(st_conns) st.(st_next_conn) (filter (fun p => negb (fst p =? k)) st.(st_owners)) st.(st_pend) st.(st_next_sid) st.(st_next_id) st.(st_services),
+              (mkState st.(st_conns) st.(st_next_conn) (filter (fun p => negb (fst p =? k)) st.(st_owners)) st.(st_pend) st.(st_next_sid) st.(st_next_id) st.(st_services) st.(st_fdok) st.(st_replies),
                [ODrv c serial 1])                                             (* RELEASED *)
             else (st, [ODrv c serial 3])                                      (* NOT_OWNER *)
         | None => (st, [ODrv c serial 2])                                     (* NON_EXISTENT *)
@@ -266,7 +305,10 @@ Definition step (cf : cfg) (st : state) (e : event) : state * list out :=
       else (st, [])
   | EDisconnect c =>
       (mkState (filter (fun x => negb (x =? c)) st.(st_conns)) st.(st_next_conn)
-               (filter (fun p => negb (snd p =? c)) st.(st_owners)) st.(st_pend) st.(st_next_sid) st.(st_next_id) st.(st_services), [])
+               (filter (fun p => negb (snd p =? c)) st.(st_owners)) st.(st_pend) st.(st_next_sid) st.(st_next_id) st.(st_services)
+               st.(st_fdok)
+               (* bus_connection_drop_pending_replies: calls of c are forgotten; callers waiting for c get NoReply (C09) *)
+               (filter (fun p => negb ((fst p =? c) || (snd p =? c))) st.(st_replies)), [])
   | EChild sid r =>
       match find_sid sid st.(st_pend), child_error r with
       | Some p, Some er =>
@@ -287,7 +329,7 @@ Definition step (cf : cfg) (st : state) (e : event) : state * list out :=
          is created once in bus_activation_new ("we don't want to lose pending activations on reload") *)
       if connected st c then (st, [ODrv c serial 0]) else (st, [])
   | ESetServices svcs =>
-      (mkState st.(st_conns) st.(st_next_conn) st.(st_owners) st.(st_pend) st.(st_next_sid) st.(st_next_id) svcs, [])
+      (mkState st.(st_conns) st.(st_next_conn) st.(st_owners) st.(st_pend) st.(st_next_sid) st.(st_next_id) svcs st.(st_fdok) st.(st_replies), [])
   end.
 
 Fixpoint run (cf : cfg) (st : state) (h : list event) : state * list (list out) :=
@@ -300,7 +342,7 @@ Fixpoint run (cf : cfg) (st : state) (h : list event) : state * list (list out) 
 (* events that the harness never produces: actor not connected *)
 Definition wf_event (st : state) (e : event) : bool :=
   match e with
-  | EConnect | EChild _ _ | ETimeout _ | ESetServices _ => true
+  | EConnect _ | EChild _ _ | ETimeout _ | ESetServices _ => true
   | ESend c _ _ _ _ | EStart c _ _ | ERequest c _ _ | ERelease c _ _ | EDisconnect c | EReload c _ => connected st c
   end.
 
@@ -314,8 +356,13 @@ Definition pending_sids (st : state) : list N := map p_sid st.(st_pend).
    class 3: <deny send_destination="t.N9" send_member="ViaN9"/>
             without a recipient the rule compares the message's DESTINATION with t.N9;
             with a recipient it asks whether the recipient owns t.N9 *)
+(* a message class as the correspondence run writes it: policy class + 4 * (carries a unix fd) + 8 * (reply expected) *)
+Definition pclass (cl : N) : N := cl mod 4.
 Definition std_activate (n : bname) (cl : N) : bool :=
-  negb (cl =? 1) && negb ((cl =? 3) && bname_eqb n (Wk 9)).
+  negb (pclass cl =? 1) && negb ((pclass cl =? 3) && bname_eqb n (Wk 9)).
 Definition std_deliver (names : list N) (cl : N) : bool :=
-  negb (cl =? 1) && negb (cl =? 2) && negb ((cl =? 3) && existsb (N.eqb 9) names).
-Definition std_cfg (svs : list service) (maxp : N) : cfg := mkCfg svs maxp std_activate std_deliver.
+  negb (pclass cl =? 1) && negb (pclass cl =? 2) && negb ((pclass cl =? 3) && existsb (N.eqb 9) names).
+Definition std_reply (cl : N) : bool := N.testbit cl 3.
+Definition std_fd (cl : N) : bool := N.testbit cl 2.
+Definition std_cfg2 (svs : list service) (maxp maxrep : N) : cfg := mkCfg svs maxp std_activate std_deliver std_reply std_fd maxrep.
+Definition std_cfg (svs : list service) (maxp : N) : cfg := std_cfg2 svs maxp 1000.
